@@ -77,6 +77,11 @@ def random_scenario(rng: random.Random, nsims=(2, 4), nconns=(1, 5), until=(2, 4
         scn["multipair"] = True  # connections between the same entities with the same options are made by ONE connect() call
     if rng.random() < 0.05:
         scn["until"] = 1
+    if rng.random() < 0.3:
+        # start order (= creation order of the SimRunner objects, which id-hashed sets inside mosaik iterate by)
+        order = [x["sid"] for x in sims]
+        rng.shuffle(order)
+        scn["order"] = order
     if not scn.get("multipair") and rng.random() < 0.12:
         scn["connect_one"] = True  # single-pair connections are made with World.connect_one instead of World.connect
     scn = S.normalize(scn)
